@@ -194,5 +194,23 @@ def stage_key(r):
 
 
 @spec
+def gen_name(path, k):
+    """name of backup generation k of a rotated log"""
+    return path + "." + str(k)
+
+
+@spec
+def same_file(fs, fs0, p):
+    """name p denotes the same thing (absent, or the same content) in both name spaces"""
+    return (p in fs) == (p in fs0) and implies(p in fs0, fs[p] == fs0[p])
+
+
+@spec
+def moved_file(fs, dst, fs0, src):
+    """dst now holds exactly what src held (absent if src was absent)"""
+    return (dst in fs) == (src in fs0) and implies(src in fs0, fs[dst] == fs0[src])
+
+
+@spec
 def wf_stager(s):
     return s._bytes == bsum(s._buf, len(s._buf)) and s._seq >= 0
